@@ -26,6 +26,7 @@ func c11(c *Ctx) {
 	c11R3(c, "R3")
 	c11R4(c, "R4")
 	sConfigClone(c, "R4/S-CFGCLONE")
+	sCommitCoversConfig(c, "R5/S-COMMITCFG")
 	sDelete(c, "R5/S-DELETE")
 	sState(c, "R6/S-STATE")
 }
